@@ -60,9 +60,10 @@ def hhAlpha (sq : Rat → Rat) (k : Nat) (A : Mat) : Rat :=
 def hhW (sq : Rat → Rat) (k : Nat) (A : Mat) (i : Nat) : Rat :=
   get A i 0 - hhAlpha sq k A * delta i 0
 
-/-- `none`: the first column is zero — `u.Normalize()` divides 0 by 0 (NaN reflector; the matrix is
-    singular, outside the property's quantifier). -/
-def householder (sq rnd : Rat → Rat) (k : Nat) (A : Mat) : Option Mat :=
+/-- the reflector branch of `Householder_Matrix`: `u = (x − alpha·e₁)/‖x − alpha·e₁‖`, `1 − 2uuᵀ`.
+    `none`: `‖x − alpha·e₁‖ = 0` — cannot happen for a non-zero column with the coded sign of `alpha`
+    (theorem `householder_isSome`). -/
+def householderRefl (sq rnd : Rat → Rat) (k : Nat) (A : Mat) : Option Mat :=
   let alpha := hhAlpha sq k A
   let w : List Rat := (List.range k).map fun i => get A i 0 - alpha * delta i 0
   let nw := sq (sumTo k fun i => w.getD i 0 * w.getD i 0)
@@ -70,6 +71,12 @@ def householder (sq rnd : Rat → Rat) (k : Nat) (A : Mat) : Option Mat :=
   else
     let u : List Rat := w.map fun x => rnd (x / nw)
     some (tab k fun i j => rnd (delta i j - 2 * (u.getD i 0 * u.getD j 0)))
+
+/-- `Householder_Matrix(M)` as coded since e9c6d4b: a zero first column (`x.Norm() == 0`) has nothing
+    to reflect and gives the identity; otherwise the reflector. -/
+def householder (sq rnd : Rat → Rat) (k : Nat) (A : Mat) : Option Mat :=
+  if sq (sumTo k fun i => get A i 0 * get A i 0) = 0 then some (ident k)
+  else householderRefl sq rnd k A
 
 /-- block embedding `P = [[1_i, 0], [0, P_sub]]` of a (n−i)×(n−i) reflector -/
 def embed (n i : Nat) (P : Mat) : Mat :=
